@@ -357,7 +357,8 @@ def decide_and_report(prop, plan, ctx, verdicts, xchk, oracle, canary, audit, st
                     # first the counter-model itself: the solver says "on THIS input the function and its contract disagree".  If the real
                     # function agrees with the executable contract on exactly that input, the symbolic model of the function is not
                     # faithful there (an engine limitation met on code it has not seen): the refutation is spurious, not a finding.
-                    if c.harness is None and v.backend.startswith(("z3", "cvc5")) and isinstance(v.model, dict) and v.model:
+                    whole_path = ":path" in v.name and ".body." not in v.name and ":loop" not in v.name and ":comp" not in v.name      # a loop-body / comprehension obligation speaks about one iteration: its model is not a function input
+                    if c.harness is None and whole_path and v.backend.startswith(("z3", "cvc5")) and isinstance(v.model, dict) and v.model:
                         try:
                             ex_in = RP.exact_case(c, v.model, ctx.seed)
                             if ex_in is not None:
